@@ -280,3 +280,16 @@ Definition eval_into (fresh : bool) (st : store) (m : mat) : store * nat :=
 Definition evals (fresh : bool) (st : store) (ms : list mat) : store :=
   fold_left (fun st m => fst (eval_into fresh st m)) ms st.
 Definition read (st : store) (a : nat) : mat := nth a st [].
+
+(* ------------------------------------------------------------------ the data held by the calculation engine during a bootstrap run
+   Each re-estimation first hands a resample to the engine; it may end normally or with a fault (an exception leaving
+   estimate()).  [restore_in_finally]: the estimation data are handed back in the `finally` clause of the loop (extracted
+   from the source) -- otherwise only when the loop completes.  Returns the data the engine holds when estimate() is left,
+   and whether the loop completed. *)
+Inductive outcome := Done | Fault.
+Fixpoint bootstrap_engine {D : Type} (restore_in_finally : bool) (estimation_data : D) (resamples : list (D * outcome)) : D * bool :=
+  match resamples with
+  | [] => (estimation_data, true)
+  | (d, Done) :: r => bootstrap_engine restore_in_finally estimation_data r
+  | (d, Fault) :: _ => (if restore_in_finally then estimation_data else d, false)
+  end.
